@@ -485,15 +485,20 @@ fn op_select_many<T: OrdElem>(cx: &mut Ctx, scn: &Scenario, w: &mut World<T>, op
                 }
                 if prop == Prop::C18 {
                     for (j, (k, v)) in pairs.iter().enumerate() {
-                        let mut single = Array1::from(pre_dbg::<T>(&pre));
+                        // the single call runs on a clone of the world: same layout, same pre-state
+                        let mut w2 = World::<T>::build(scn);
+                        restore(&mut w2, &before);
                         let pol = derive_policy(&op.alt, j as u64);
                         let kk = *k;
-                        let (o2, s2) = with_policy(&pol, budget(n), || single.get_from_sorted_mut(kk));
+                        let (o2, s2) = with_policy(&pol, budget(n), || {
+                            let mut v2 = lane_view(w2.view_mut(), lane);
+                            v2.get_from_sorted_mut(kk)
+                        });
                         cx.note_draws(pol.kind, &s2.draws);
                         match o2 {
                             Outcome::Done(x) => {
                                 if x != *v {
-                                    cx.fail("bulk-vs-single:select", format!("bulk selection entry {} = {:?} but single selection of {} = {:?} (array {:?})", k, v, k, x, pre_dbg::<T>(&pre)));
+                                    cx.fail("bulk-vs-single:select", format!("bulk selection entry {} = {:?} but single selection of {} = {:?} (lane {:?})", k, v, k, x, pre_dbg::<T>(&pre)));
                                     return;
                                 }
                             }
